@@ -90,6 +90,42 @@ def replay_gs(ctx, rec, n_case):
                               {'case': sig0, 'got': x.tolist(), 'expected': want.tolist()})
 
 
+def replay_smoother_history(ctx, rec, n_case):
+    """object history of a smoother: ONE GaussSeidelSmoother object is applied to the matrix in every storage format, and
+    to each matrix object a second time after its coefficients were doubled IN PLACE (same object, same pattern -- what a
+    time-stepping or Newton loop does) together with the right-hand side: Gauss-Seidel on (2A, 2f) makes exactly the
+    iterates of (A, f), so the spec's result is the expectation for both applications"""
+    from pyiga import solvers
+    if rec['idx']:
+        return
+    A = np.array([[float(frac(v)) for v in r] for r in rec['A']])
+    b = np.array([float(frac(v)) for v in rec['b']])
+    x0 = np.array([float(frac(v)) for v in rec['x0']])
+    want = np.array([float(frac(v)) for v in rec['x']])
+    sig0 = 'A=%s b=%s x0=%s sweep=%s iterations=%d' % (
+        A.astype(int).tolist(), b.astype(int).tolist(), x0.astype(int).tolist(), rec['sweep'], rec['iters'])
+    try:
+        S = solvers.GaussSeidelSmoother(iterations=rec['iters'], sweep=rec['sweep'])
+        for fmt, M in renderings(A):
+            for nth, scale in (('first', 1.0), ('after-in-place-rescaling', 2.0)):
+                if scale != 1.0:
+                    if isinstance(M, np.ndarray):
+                        M *= scale
+                    else:
+                        M.data *= scale
+                x = x0.copy()
+                with warnings.catch_warnings():
+                    warnings.simplefilter('ignore')
+                    S(M, x, scale * b)
+                ctx.case(('gs-smoother', sig0, fmt, nth), nontrivial=rec['nupd'] >= 2)
+                if not np.array_equal(x, want):
+                    ctx.violation('smoother-object-history-mismatch format=%s application=%s sweep=%s' % (fmt, nth, rec['sweep']),
+                                  {'case': sig0, 'got': x.tolist(), 'expected': want.tolist()})
+                    return
+    except Exception as ex:
+        ctx.violation('exception %s GaussSeidelSmoother object history' % type(ex).__name__, {'case': sig0, 'error': repr(ex)})
+
+
 # =====================================================================================================
 # iterative drivers
 
@@ -499,6 +535,8 @@ def run(ctx):
                           'energy_invariant_evaluated': sum(1 for r in recs if r['energy'])}
     for k, rec in enumerate(recs):
         replay_gs(ctx, rec, k)
+        if th or k % 5 == 0:
+            replay_smoother_history(ctx, rec, k)
     spd = [r for r in recs if r['spd'] and len(r['A']) >= 3]
     seen = set()
     for k, rec in enumerate(spd):
